@@ -2,7 +2,7 @@
 
 Oracle: the instrumentation itself, on two complementary rebuilds of the
 working-tree .pyx:
-  bc    bounds/wraparound checks switched on -> IndexError per out-of-range access
+  bc    bounds checks switched on (wraparound stays off, so a negative index is out of range too) -> IndexError per out-of-range access
         (also inside views of larger buffers, which red zones cannot see)
   asan  clang AddressSanitizer+UBSan -> report on stderr (physical heap red zones,
         reads and writes, incl. the output buffer)
@@ -38,7 +38,7 @@ META = {
                    "thorough": "all 65536 ordered subset pairs of an 8-element universe per (variant, presentation pair)"},
     "assumptions": [
         "ASan sees only accesses that leave a heap allocation's red zone; the bounds-checked build sees every "
-        "memoryview access but is a textual transform of the source (boundscheck/wraparound switched on)",
+        "memoryview access but is a textual transform of the source (boundscheck switched on; wraparound left off as in production, so a negative index raises instead of counting from the end)",
         "a clean run is not memory safety; it is absence of reports on the executions produced"],
 }
 
